@@ -298,3 +298,64 @@ gpanic! { fn c16_clone_inside_thin_with_arc_overflow_aborts() {
     t.with_arc(|a| { let c = a.clone(); core::mem::forget(c); });
     core::mem::forget(t);
 } }
+
+// ------------------------------------------------------------------------------------------
+// C14 on thin / header-slice values: same answers as the plain (header, slice) value
+// ------------------------------------------------------------------------------------------
+pub(crate) fn mk_thin_u8(buf: &[u8; 2], len: usize, h: u8) -> ThinArc<u8, u8> {
+    ThinArc::from_header_and_slice(h, &buf[..len])
+}
+
+macro_rules! h_thin_cmp {
+    ($name:ident, |$t1:ident, $t2:ident, $p1:ident, $p2:ident| $body:expr) => {
+        gproof! { #[kani::unwind(4)] fn $name() {
+            let (b1, b2): ([u8; 2], [u8; 2]) = (kani::any(), kani::any());
+            let (l1, l2): (usize, usize) = (kani::any(), kani::any());
+            kani::assume(l1 <= 2 && l2 <= 2);
+            let (h1, h2): (u8, u8) = (kani::any(), kani::any());
+            let ($t1, $t2) = (mk_thin_u8(&b1, l1, h1), mk_thin_u8(&b2, l2, h2));
+            // a thin value compares as its header followed by its slice
+            let ($p1, $p2) = ((h1, &b1[..l1]), (h2, &b2[..l2]));
+            assert!($body);
+            assert!(tcnt(&$t1) == 1 && tcnt(&$t2) == 1);
+            core::mem::forget($t1);
+            core::mem::forget($t2);
+        } }
+    };
+}
+// @h props=C14,C04 bounded=len<=2 fuc=ThinArc::eq,HeaderSlice::eq
+h_thin_cmp!(c14_thin_eq_matches_plain_value, |t1, t2, p1, p2| (t1 == t2) == (p1 == p2) && (t1 != t2) == (p1 != p2));
+// @h props=C14,C04 bounded=len<=2 fuc=ThinArc::partial_cmp,ThinArc::cmp,HeaderSlice::partial_cmp,HeaderSlice::cmp
+h_thin_cmp!(c14_thin_cmp_matches_plain_value, |t1, t2, p1, p2| t1.partial_cmp(&t2) == p1.partial_cmp(&p2) && t1.cmp(&t2) == p1.cmp(&p2));
+// @h props=C14 bounded=len<=2 fuc=ThinArc::partial_cmp,HeaderSlice::partial_cmp
+h_thin_cmp!(c14_thin_relops_match_plain_value, |t1, t2, p1, p2| (t1 < t2) == (p1 < p2) && (t1 <= t2) == (p1 <= p2) && (t1 > t2) == (p1 > p2) && (t1 >= t2) == (p1 >= p2));
+// @h props=C14 bounded=len<=2 fuc=ThinArc::eq,ThinArc::cmp
+h_thin_cmp!(c14_thin_eq_iff_cmp_equal, |t1, t2, p1, p2| (t1 == t2) == (t1.cmp(&t2) == core::cmp::Ordering::Equal));
+
+// @h props=C14 bounded=len<=2 fuc=ThinArc::hash note="equal handles hash equally; the hasher is fed by the value"
+gproof! { #[kani::unwind(26)] fn c14_thin_hash_equal_for_equal() {
+    use core::hash::Hash;
+    let (b1, b2): ([u8; 2], [u8; 2]) = (kani::any(), kani::any());
+    let (l1, l2): (usize, usize) = (kani::any(), kani::any());
+    kani::assume(l1 <= 2 && l2 <= 2);
+    let (h1, h2): (u8, u8) = (kani::any(), kani::any());
+    let (t1, t2) = (mk_thin_u8(&b1, l1, h1), mk_thin_u8(&b2, l2, h2));
+    let (mut s1, mut s2, mut s3) = (vrt::RecHasher::new(), vrt::RecHasher::new(), vrt::RecHasher::new());
+    t1.hash(&mut s1);
+    t2.hash(&mut s2);
+    (*t1).hash(&mut s3);
+    assert!(s1.n == s3.n && s1.bytes == s3.bytes);
+    if t1 == t2 { assert!(s1.n == s2.n && s1.bytes == s2.bytes); }
+    core::mem::forget(t1);
+    core::mem::forget(t2);
+} }
+
+// @h props=C14,C04 fuc=ThinArc::fmt note="Debug of a ThinArc formats the header-slice value: header and each element once"
+gproof! { #[kani::unwind(4)] fn c14_thin_debug_delegates() {
+    use crate::vrt::{Ip, OP_DEBUG};
+    let t: ThinArc<Ip, u8> = ThinArc::from_header_and_slice(Ip(3), &[1u8, 2]);
+    let ok = vrt::debug_ok(&t);
+    assert!(vrt::ip_calls(OP_DEBUG) == 1 && unsafe { vrt::IP_SELF } == vrt::addr(&t.header.header as *const Ip));
+    assert!(tcnt(&t) == 1);
+    core::mem::forget(t);
+} }
